@@ -7,6 +7,7 @@ from .._change import ListInsert
 from .._change import Replace
 from .._global_state import state
 from .._sentinels import undefined
+from .._unmanaged import Unmanaged
 from .._utils import value_to_token
 from .generic_value import GenericValue
 from .generic_value import clone
@@ -51,6 +52,10 @@ class CollectionValue(GenericValue):
                     node=old_node,
                     old_value=old_value,
                 )
+                continue
+
+            if isinstance(old_value, Unmanaged):
+                # Is(...) and other unmanaged values are never updated
                 continue
 
             # check for update
